@@ -180,22 +180,26 @@ class Check:
                     paths.append(os.path.join(tmp, 'c%d-%d.mos.xml' % (complete, k)))
                     open(paths[-1], 'w', encoding='utf-8').write(t)
                 fakes3.install(s3mod, objects={'p/%d.mos.xml' % k: t.encode('utf-8') for k, t in enumerate(docs_)})
-                routes = {'MosCollection(readers)': lambda: MosCollection(sorted(MosReader.from_string(t) for t in docs_)),
-                          'from_strings': lambda: MosCollection.from_strings(docs_),
-                          'from_files': lambda: MosCollection.from_files(paths),
-                          'from_s3': lambda: MosCollection.from_s3(bucket_name='b', prefix='p/')}
-                for name, fn in routes.items():
-                    try:
-                        fn()
-                        got = 'accepted'
-                    except Exception as e:
-                        got = type(e).__name__
-                    n += 1
-                    sigs.add(('default', name, complete, got))
-                    want = 'accepted' if complete else 'InvalidMosCollection'
-                    if got != want:
-                        vio.append({'what': '%s without allow_incomplete: a collection %s roDelete is %s, expected %s' % (name, 'with its' if complete else 'without a', got, want),
-                                    'case': {'kind': 'default-route', 'route': name, 'docs': docs_}, 'impl': got, 'expected': want})
+                for inc in (None, False, True):
+                    kw = {} if inc is None else {'allow_incomplete': inc}
+                    routes = {'MosCollection(readers)': lambda: MosCollection(sorted(MosReader.from_string(t) for t in docs_), **kw),
+                              'from_strings': lambda: MosCollection.from_strings(docs_, **kw),
+                              'from_files': lambda: MosCollection.from_files(paths, **kw),
+                              'from_s3': lambda: MosCollection.from_s3(bucket_name='b', prefix='p/', **kw),
+                              'from_s3 with suffix': lambda: MosCollection.from_s3(bucket_name='b', prefix='p/', suffix='.mos.xml', **kw)}
+                    for name, fn in routes.items():
+                        try:
+                            fn()
+                            got = 'accepted'
+                        except Exception as e:
+                            got = type(e).__name__
+                        n += 1
+                        sigs.add(('route', name, inc, complete, got))
+                        want = 'accepted' if (complete or inc) else 'InvalidMosCollection'
+                        if got != want:
+                            how = 'without allow_incomplete' if inc is None else 'with allow_incomplete=%s' % inc
+                            vio.append({'what': '%s %s: a collection %s roDelete is %s, expected %s' % (name, how, 'with its' if complete else 'without a', got, want),
+                                        'case': {'kind': 'default-route', 'route': name, 'docs': docs_, 'inc': inc}, 'impl': got, 'expected': want})
             # the very same document supplied twice is two messages, whichever way the collection is built (for from_files:
             # one path listed twice, the second time in another spelling)
             for label, docs_ in (('the roCreate twice', [ro_t, ap_t, rd_t, ro_t]), ('the roDelete twice', [ro_t, ap_t, rd_t, rd_t]),
@@ -238,7 +242,7 @@ class Check:
             return {'violation': (io.get('err0') == 'InvalidMosCollection') != bool(want_reject), 'impl': io.get('err0') or 'accepted'}
         if case.get('kind') == 'default-route':
             # replayed through from_strings without the keyword (the route itself is named in the report)
-            case = dict(case, inc=None)
+            case = dict(case, inc=case.get('inc'))
         r = run_sub(flags, 'collection', [{'docs': case['docs'], 'inc': case['inc']}])[0]
         mo = engine.readers_cases([{'docs': case['docs'], 'inc': bool(case['inc'])}])[0]
         return {'violation': (r[0] == 'ok') != (mo[0] == 'ok') or (r[0] == 'err' and r[1] != 'InvalidMosCollection'), 'impl': r[:2], 'model': str(mo)}
